@@ -218,6 +218,9 @@ pub async fn run_conn_tls(
     };
     let mut cur_req = 0usize;
     'steps: for step in &plan.steps {
+        if std::env::var_os("VERIF_LIVE").is_some() {
+            eprintln!("        tls client conn={conn} t={} step {}", world.now_ms(), match step { Step::Send { data, .. } => format!("send({})", data.0.len()), other => format!("{other:?}") });
+        }
         match step {
             Step::Send { data, completes } => {
                 let belongs = completes.unwrap_or(cur_req);
@@ -232,11 +235,31 @@ pub async fn run_conn_tls(
                         }
                     }
                 }
-                if let Err(e) = wr.write_all(&data.0).await {
-                    shared.lock().unwrap().obs.write_err = Some(e.kind());
+                // A client whose peer has ended the response stream does not
+                // go on pushing an upload nobody reads: a second after it has
+                // seen the end of the stream it abandons a write that is
+                // still blocked (and with it the connection).
+                let gave_up = {
+                    // (rustls takes up to 64 KB into its own buffer: it is
+                    // the flush that waits for the pipe)
+                    let write = async {
+                        wr.write_all(&data.0).await?;
+                        wr.flush().await
+                    };
+                    tokio::pin!(write);
+                    loop {
+                        let eof = shared.lock().unwrap().done_reading;
+                        tokio::select! {
+                            r = &mut write => break r.err().map(|e| e.kind()),
+                            _ = notify.notified(), if !eof => {}
+                            _ = tokio::time::sleep(ms(1_000)), if eof => break Some(std::io::ErrorKind::BrokenPipe),
+                        }
+                    }
+                };
+                if let Some(kind) = gave_up {
+                    shared.lock().unwrap().obs.write_err = Some(kind);
                     break 'steps;
                 }
-                let _ = wr.flush().await;
                 if let Some(i) = completes {
                     let q = world.log(Ev::ReqSent, conn, plan.reqs[*i].nonce, data.0.len() as u64, 0);
                     shared.lock().unwrap().obs.sent_seq[*i] = Some(q);
